@@ -3,6 +3,8 @@
    A MATCH of an item list [its] in the text [T] at start offset [p] is a PARSE: every item is given
    the piece of text it consumes -
      ILit c   one byte, equal to c            IOne k   one byte of class k
+     IRune k  one UTF-8 decoding step (unicode/utf8.DecodeRuneInString: 1-4 bytes, an invalid sequence is one
+              byte) whose first byte is of class k
      IStar k  n bytes, all of class k (the number n is the parse's choice; it is recorded)
      IOpen g  nothing; the position is remembered as the opening of group g
      IClose g nothing; group g (opened earlier) is recorded as the range [opening, here)
@@ -24,7 +26,7 @@
    and [Lib.Regex.m]/[find] equal to the string image of [mi]/[find_parse].  Definitions only. *)
 From Coq Require Import Ascii String List Bool Arith NArith Lia.
 Import ListNotations.
-From AM Require Import Lib.Bytes Lib.Regex.
+From AM Require Import Lib.Bytes Lib.Utf8 Lib.Regex.
 
 Definition popens := list (nat * nat).            (* group -> offset of its opening *)
 Definition pcaps := list (nat * (nat * nat)).     (* group -> [from, to) *)
@@ -47,7 +49,10 @@ Inductive Parse (T : str) : list item -> nat -> popens -> list nat -> nat -> pca
 | P_bol r ops ls e pcs :
     Parse T r 0 ops ls e pcs -> Parse T (IBol :: r) 0 ops ls e pcs
 | P_eol r p ops ls e pcs :
-    p = length T -> Parse T r p ops ls e pcs -> Parse T (IEol :: r) p ops ls e pcs.
+    p = length T -> Parse T r p ops ls e pcs -> Parse T (IEol :: r) p ops ls e pcs
+| P_rune k c r p ops ls e pcs :
+    nth_error T p = Some c -> in_cls k c = true ->
+    Parse T r (p + snd (decode_rune (skipn p T))) ops ls e pcs -> Parse T (IRune k :: r) p ops ls e pcs.
 
 (* greedy-lexicographic order on the star lengths of two parses of one pattern: the first star on
    which they differ is LONGER in the left one (or they do not differ) *)
@@ -100,6 +105,11 @@ Fixpoint mi (its : list item) (pos : nat) (s : str) (ops : popens) : option (nat
       end
   | IBol :: r => if Nat.eqb pos 0 then mi r pos s ops else None
   | IEol :: r => match s with [] => mi r pos s ops | _ :: _ => None end
+  | IRune k :: r =>
+      match s with
+      | x :: _ => if in_cls k x then let w := snd (decode_rune s) in mi r (pos + w) (skipn w s) ops else None
+      | [] => None
+      end
   end.
 
 (* the deterministic walk along GIVEN star lengths: Some (end, captures) iff they describe a parse
@@ -124,6 +134,11 @@ Fixpoint parse_with (its : list item) (pos : nat) (s : str) (ops : popens) (ls :
       end
   | IBol :: r => if Nat.eqb pos 0 then parse_with r pos s ops ls else None
   | IEol :: r => match s with [] => parse_with r pos s ops ls | _ :: _ => None end
+  | IRune k :: r =>
+      match s with
+      | x :: _ => if in_cls k x then let w := snd (decode_rune s) in parse_with r (pos + w) (skipn w s) ops ls else None
+      | [] => None
+      end
   end.
 
 Record pmatch := { pm_start : nat; pm_end : nat; pm_stars : list nat; pm_caps : pcaps }.
@@ -183,6 +198,7 @@ Fixpoint classes_uniform (its : list item) : bool :=
   | [] => true
   | IOne k :: r => cls_uniform_high k && classes_uniform r
   | IStar k :: r => cls_uniform_high k && classes_uniform r
+  | IRune k :: r => cls_uniform_high k && classes_uniform r
   | _ :: r => classes_uniform r
   end.
 
@@ -200,8 +216,10 @@ Fixpoint follow_ok (r : list item) : bool :=
   | _ => false
   end.
 
-(* every single-byte item over such a class is the head of  x+ = IOne x; IStar x' (x' with the
-   non-ASCII bytes too): the star consumes the rest of the rune *)
+(* every single-BYTE item over such a class is the head of  x+ = IOne x; IStar x' (x' with the
+   non-ASCII bytes too): the star consumes the rest of the rune.  (Where such an item stands alone the
+   translator emits IRune, which consumes the whole rune; a star over a class with the non-ASCII bytes
+   must not stand directly in front of it: [follow_ok] has no case for IRune.) *)
 Fixpoint items_rune_safe (its : list item) : bool :=
   match its with
   | [] => true
